@@ -64,6 +64,47 @@ C05 = [
     ("expand_binop_attribute_dropped", ["expand_before_binary_op_rules"], "expand_before_binary_op_rules re-emits BitShift/Mod without direction/fmod"),
 ]
 
+# (property, region, bucket regex, description, dump dir with candidate replays)
+MANUAL = [
+    ("C01", "float_literal_not_f32_exact_next_to_double", r"eager:differs_from_graph_and_python_reading",
+     "float literal next to a DOUBLE operand: the converter emits Constant(float32)+CastLike (0.001 -> 0.0010000000475), eager mode converts the Python float "
+     "to float64 exactly; documented design of the static route, but the three front ends disagree (also C12)"),
+    ("C01", "python_not_on_tensor_eager", r"eager:raises", "`not X` on a non-scalar BOOL tensor: Python's `not` cannot be overloaded, eager raises ValueError (truth value ambiguous) "
+     "while the converter translates it to Not"),
+    ("C01", "attribute_parameter_with_default_in_model_proto", r"model:(graph_differs_from_python_reading|graph_not_executable)",
+     "to_model_proto() of a script function whose attribute parameters have defaults leaves Constant<value_*: @attr> reference attributes in the main graph: "
+     "onnx.checker rejects the model and runtimes read the attribute as 0 instead of the default"),
+    ("C02", "attribute_parameter_with_default_in_model_proto", r"model_proto:checker:attr_ref_in_main_graph", "same defect as C01: reference attributes in the main graph of to_model_proto()"),
+    ("C07", "replacement_initializer_same_name_twice", r"(invalid|violation_not_executable|violation_values):abs_plus_zero_init.*",
+     "a replacement that creates an initializer with a fixed name, applied twice in one graph: the second application refers to '<name>_1' which is never registered"),
+    ("C07", "multi_output_pattern_insertion_point", r"(invalid|violation_not_executable):neg_and_abs.*",
+     "patterns with several output nodes: the replacement nodes are inserted at the position of one output node (documented TODO); a consumer placed earlier uses a value before its definition"),
+    ("C11", "negstep_start_below_minus_d", r"eager_different_tensor:.*",
+     "A[s::-k] with s < -len: numpy yields an empty result, ONNX Slice clamps the start to 0 for negative steps and returns element 0 (eager and graph on onnxruntime; "
+     "onnx.reference follows numpy)"),
+    ("C13", "names_collide_after_cleanup", r"(roundtrip:different_computation:.*|text_not_python:any:SyntaxError|roundtrip:not_executable:.*)",
+     "value names that become the same identifier after clean-up ('a.b' and 'a_b'): duplicate argument or one variable shadowing the other"),
+    ("C13", "skip_initializers_on_model_without_initializers", r"text_not_python:skip_initializers:IndentationError", "skip_initializers=True on a model without initializers emits an indented @script without enclosing def"),
+    ("C13", "skip_initializers_random_weights_unsupported_dtype", r"export_raises:NotImplementedError@onnx_export.py:generate_rand", "skip_initializers=True with a non-float32 initializer: NotImplementedError from the random-weights generator"),
+    ("C13", "rename_option_loses_graph_inputs", r"text_not_executable:ValueError:Unbound name", "rename=True renames uses (v2) but the signature keeps the original input names"),
+    ("C13", "inline_const_drops_still_referenced_definition", r"text_not_executable:ValueError:Unbound name", "inline_const=True drops Constant/initializer definitions that are still referenced by name (Loop trip count, initializers whose names need clean-up)"),
+    ("C13", "inline_const_empty_list", r"text_not_executable:TranslationError:.*", "inline_const=True renders an empty 1-D constant as [], which the converter cannot type"),
+    ("C13", "if_with_unused_outputs", r"text_not_executable:TranslationError:.*", "an If node whose outputs are all unused is exported as an `if` assigning dead variables, which the converter refuses"),
+    ("C13", "while_style_loop", r"export_raises:IndexError@onnx_export.py:_translate_loop", "Loop without trip count (script-derived while loop): IndexError in _translate_loop"),
+    ("C13", "loop_with_condition_break_first", r"text_not_executable:TranslationError:.*", "Loop with a condition input is exported as `for ...: if not cond: break` with the break first, which the converter refuses"),
+    ("C15", "optimize_renames_constant_tensor_of_argument", r"argument_mutated:optimize", "optimize(ModelProto) mutates its argument: the TensorProto of Constant 'value' attributes is shared with the IR and renamed"),
+    ("C15", "convert_version_proto_drops_metadata", r"lost:(graph|node)\.metadata_props:convert_version", "convert_version(ModelProto) copies only the graph back: graph/node metadata_props are lost"),
+    ("C03", "reduces_to_known_rule_finding", r"(violation_values|violation_not_executable|corpus_not_executable|corpus_expected_mismatch):.*",
+     "optimize()/rewrite() inherit the rewrite-rule findings recorded under C05: attributed only when a single rule unit applied alone (or the stepwise replay of the pipeline) reproduces a violation that is itself a recorded C05 finding"),
+    ("C03", "bn_training_mode_unused_stats", r"(violation_values|violation_not_executable):.*",
+     "BatchNormalization<training_mode=1> whose running-statistics outputs are dead: onnx_ir RemoveUnusedNodesPass (part of optimize/rewrite) drops training_mode, switching to inference statistics"),
+    ("C03", "ir_version_lt4", r"(corpus_not_executable|violation_not_executable):.*", "models with ir_version < 4: new initializers are not added to the graph inputs as that IR version requires"),
+    ("C04", "reduces_to_known_rule_finding", r"(invalid|override|raise|signature):.*", "see C03: inherited rewrite-rule findings (validity / override / exceptions)"),
+    ("C04", "bn_training_mode_unused_stats", r"(invalid|override):.*", "see C03: training-mode BatchNormalization after dead-output removal is invalid (3 outputs without training_mode)"),
+    ("C09", "reduces_to_known_rule_finding", r"(violation_values|violation_not_executable):.*", "see C03: inherited rewrite-rule findings under symbolic shapes"),
+    ("C09", "bn_training_mode_unused_stats", r"(violation_values|violation_not_executable):.*", "see C03"),
+]
+
 TABLES = {"C05": C05}
 
 
@@ -82,6 +123,34 @@ def main():
             continue
         gen.append({"id": "KF-C05-" + region, "properties": ["C05"], "status": "known", "what": what, "bucket": bucket, "region": region,
                     "replay": replay, "generated": True})
+    import glob
+    import importlib
+
+    sys.path.insert(0, HOME)
+    for pid, region, bucket, what in MANUAL:
+        replay = f"known/{pid}/{region}.json"
+        full = os.path.join(HOME, replay)
+        if not os.path.exists(full):
+            mod = importlib.import_module(f"vf.props.{pid}")
+            pred = mod.REGIONS[region]
+            best = None
+            for p in sorted(glob.glob(f"/tmp/dump{pid}/all/{pid}-*.json")):
+                c = json.load(open(p))
+                try:
+                    if re.fullmatch(bucket, c["bucket"]) and pred(c["case"]) and (best is None or c.get("size", 0) < best.get("size", 0)):
+                        best = c
+                except Exception:  # noqa: BLE001
+                    pass
+            if best is None:
+                print("no replay candidate for", pid, region, file=sys.stderr)
+                continue
+            os.makedirs(os.path.dirname(full), exist_ok=True)
+            json.dump({"property": pid, "bucket": best["bucket"], "detail": best["detail"], "case": best["case"]}, open(full, "w"), indent=1)
+        gen.append({"id": f"KF-{pid}-{region}", "properties": [pid], "status": "known", "what": what, "bucket": bucket, "region": region, "replay": replay, "generated": True})
+    for p in sorted(glob.glob(os.path.join(HOME, "known", "entries_*.json"))):
+        for e in json.load(open(p)):
+            e["generated"] = True
+            gen.append(e)
     data["findings"] = keep + gen
     json.dump(data, open(path, "w"), indent=1)
     print(len(data["findings"]), "entries")
